@@ -1,3 +1,4 @@
+import Heathcliff.Proofs.C19K
 /-
   C19 — LWE extraction, field trace and packing place coefficients as documented.
 
@@ -152,5 +153,72 @@ example : packPoly 3 (1 : Int) #[#[1, 9, 9, 9, 9, 9, 9, 9], #[2, 7, 7, 7, 7, 7, 
 /-- the hypothesis of `pack_spec` is satisfiable (N = 8 in Z_17) -/
 example : ∃ ninv : ZMod 17, ninv * (2 : ZMod 17)^3 = 1 := ⟨15, by decide⟩
 example : packLog 5 = 3 ∧ packLog 3 = 2 ∧ packLog 1 = 0 ∧ packLog 8 = 3 := by decide
+
+
+/-! ### field trace and packing on the MODEL's key-switched automorphisms: phase(result) = fieldTracePoly / packed layout + accumulated key-switch noise with explicit bounds (BGV: noise = 0 mod t), refusals
+    (statements, hypothesis bundles and non-vacuity instances: Heathcliff/Proofs/C19K.lean, section "Property theorems") -/
+
+/-- L1, ONE LAYER of the field trace on the model (rounding branch: BFV in coefficient form, CKKS in NTT form):
+    `ct' = ct + applyGalois(ct, g)` for an odd g ≤ 2N with a Galois key from σ_g(s) to s (`c04k_KeyEq … s (σ_g s) e G`) succeeds, stays
+    canonical, keeps representation and correction factor, and modulo every level modulus q_j
+      phase_s(ct') ≡ x + σ_g(x) + ν,   x = phase_s(ct),   ν = `c04k_nuStd` of the switched σ_g(c1)   (`c19k_LayerSpec`),
+    with P·‖ν‖∞ ≤ dsz·A·N·Be + ⌊P/2⌋·(1 + ‖s‖₁)  (`c19k_boundStd`; q_j ≤ A, ‖e_i‖∞ ≤ Be). -/
+theorem fieldTrace_layer_noisy : type_of% @HC.fieldTrace_layer_noisy := @HC.fieldTrace_layer_noisy
+
+/-- L1, one layer, BGV (NTT form): the same with ν = `c04k_nuBgv`, P·‖ν‖∞ ≤ dsz·A·N·Be + P·t·(1 + ‖s‖₁), and ν ≡ 0 (mod t) when
+    every key error is a multiple of t. -/
+theorem fieldTrace_layer_noisy_bgv : type_of% @HC.fieldTrace_layer_noisy_bgv := @HC.fieldTrace_layer_noisy_bgv
+
+/-- L1, THE WHOLE LOOP `field_trace_inplace(ct, keys, logn)` on the model (`c19k_fieldTraceCt`: the fold of `applyGalois` +
+    `add_inplace` over g = N+1, N/2+1, …; N = 2^(l.k)), rounding branch.  Hypotheses: canonical two-polynomial input, and for every
+    layer i < log2 N − logn a Galois key for g_i = 2^(l.k−i)+1 from σ_{g_i}(s) to s with errors ‖e_i‖∞ ≤ Be.
+    Conclusion: success, and modulo every q_j
+        phase_s(result) ≡ fieldTracePoly(phase_s(ct)) + N_acc,
+    `fieldTracePoly` the exact phase-level program of C19 (`C19.field_trace_coeffs`), N_acc = `c19k_accNoise` the propagated noise
+    N_0 = 0, N_{i+1} = N_i + σ_{g_i}(N_i) + ν_i with ν_i the switch-key noise of layer i (of the i-th intermediate ciphertext),
+    and the explicit bound  P·‖N_acc‖∞ ≤ (2^m − 1)·B = Σ_{i<m} 2^(m−1−i)·B,  m = log2 N − logn, B = `c19k_boundStd`. -/
+theorem fieldTrace_noisy : type_of% @HC.fieldTrace_noisy := @HC.fieldTrace_noisy
+
+/-- L1, the whole loop, BGV: bound with B = `c19k_boundBgv`, and N_acc ≡ 0 (mod t) when all key errors are multiples of t — the
+    plaintext residue of the phase modulo t is exactly that of the exact field trace, same correction factor. -/
+theorem fieldTrace_noisy_bgv : type_of% @HC.fieldTrace_noisy_bgv := @HC.fieldTrace_noisy_bgv
+
+/-- coefficient form of `fieldTrace_noisy(_bgv)`: whenever phase(result) ≡ fieldTracePoly(x) + N (the conclusion of the two theorems),
+    coefficient c of the result phase is (N/2^logn)·x_c + N_c when N/2^logn divides c, and N_c alone otherwise. -/
+theorem fieldTrace_noisy_coeffs : type_of% @HC.fieldTrace_noisy_coeffs := @HC.fieldTrace_noisy_coeffs
+
+/-- refusal: a missing Galois key for the first element N + 1 (when the loop runs at all) -/
+theorem fieldTrace_refuses_missing_key : type_of% @HC.fieldTrace_refuses_missing_key := @HC.fieldTrace_refuses_missing_key
+
+/-- refusal: a ciphertext that does not have exactly two polynomials (when the loop runs at all) -/
+theorem fieldTrace_refuses_size : type_of% @HC.fieldTrace_refuses_size := @HC.fieldTrace_refuses_size
+
+/-- logn ≥ log2 N: the loop body never runs -/
+theorem fieldTrace_noop : type_of% @HC.fieldTrace_noop := @HC.fieldTrace_noop
+
+/-- L2, ONE BUTTERFLY of the merge tree of `pack_lwe_ciphertexts` on the model (rounding branch: BFV, or CKKS with the NTT round trip
+    around the automorphism): the monomial shift, `sub`, `add_inplace` are exact on phases, the one `apply_galois_inplace` adds ν:
+      phase(even') ≡ packMerge(phase even, phase odd) + ν   (mod q_j),   P·‖ν‖∞ ≤ `c19k_boundStd`. -/
+theorem pack_merge_noisy : type_of% @HC.pack_merge_noisy := @HC.pack_merge_noisy
+
+/-- L2, THE WHOLE `pack_lwe_ciphertexts` on the model after leaf preparation (`c19k_packCt`: merge tree of L layers over 2^L canonical
+    coefficient-form leaves `rlwes[o]`, then `field_trace_inplace(·, L)`; rounding branch).  With Galois keys for the merge elements
+    2^(lam+1)+1 (lam < L) and the trace elements 2^(log2 N − i)+1 (i < log2 N − L), all errors ‖·‖∞ ≤ Be:
+    the result phase, modulo every q_j, has
+      coefficient (N/2^L)·u  ≡ N · (constant coefficient of the phase of leaf reverse_bits(u, L)) + (N/2^L)·Z + T,
+      every other coefficient ≡ T,
+    with integer noise arrays Z (merge tree) and T (trace), P·|Z| ≤ (2^L − 1)·B at the coefficients read, P·‖T‖∞ ≤ (N/2^L − 1)·B,
+    hence P·|(N/2^L)·Z + T| ≤ (N − 1)·B, B = `c19k_boundStd`.  (With leaves = inputs divided by N, N·leaf = input: the
+    documented placement `C19.pack_spec` up to this noise.) -/
+theorem pack_noisy : type_of% @HC.pack_noisy := @HC.pack_noisy
+
+/-- NON-VACUITY of the L1 hypotheses: on the key level `c04t_exKL` (N = 2, q = 13, P = 17, t = 5), ciphertext level {13}, the genuine
+    Galois key `c19k_exKey` for g = 3 (s = 1 − X, σ_3(s) = 1 + X, e = 1 − X) satisfies `c19k_KeyOK` and the key equation, the example
+    ciphertext satisfies `c19k_CtOK`; hence the full trace (logn = 0, one layer) succeeds in BFV and BGV with P·‖N_acc‖∞ ≤ B. -/
+theorem fieldTrace_noisy_nonvacuous : type_of% @HC.fieldTrace_noisy_nonvacuous := @HC.fieldTrace_noisy_nonvacuous
+
+/-- NON-VACUITY of the L2 hypotheses: on the same concrete world (N = 2, q = 13, P = 17), two coefficient-form leaves, one merge
+    layer (L = 1, Galois element 3, the genuine key `c19k_exKey`), BFV: `pack_noisy` applies, so the model's pack succeeds. -/
+theorem pack_noisy_nonvacuous : type_of% @HC.pack_noisy_nonvacuous := @HC.pack_noisy_nonvacuous
 
 end HC.C19
